@@ -8,6 +8,22 @@ NA = [
  ("C10", "pure function composition render/parse/render; nothing for a simulator to vary (DESIGN.md section 5)"),
 ]
 CHECKS = {
+ "C03": ("exploration", "5/C03",
+   "Seeded swarm search over batches of generated messages with faults placed inside in-flight operations: producer failures at three positions, transport reset / failing write / peer-stops-reading at byte offsets of eight classes located by a fault-free probe run, scripted 4yz/5yz/disconnect/lost-reply at MAIL..RSET. The reference server's commit log decides byte-identity, at-most-once and the IsDelivered equivalence exactly; sampling, not proof.",
+   "Trusted: simulation kernel/transport, reference server, the harness' own healthy re-render as 'complete rendering'. Two-generals relaxation: IsDelivered may be false when the 2yz reply was not delivered completely.",
+   "deterministic simulation: seeded fault schedules (producer, transport, reply script), commit-log oracle"),
+ "C04": ("fault_enumeration", "5/C04",
+   "For seeded client/server configurations every single-fault reply script (each command position x {4yz, 5yz, disconnect}) is enumerated, the thorough tier adds every pair; sampled multi-fault scripts on fresh configurations on top. A strict RFC 5321 automaton judges every line it receives, unique reply tokens decide attribution.",
+   "Trusted: the reference automaton's reading of RFC 5321 section 4.1.4 (a refused DATA leaves the transaction open). The SASL cancel line after a final AUTH reply (inherited net/smtp behaviour pinned by go-mail's tests) is recorded but not judged.",
+   "deterministic simulation: enumerated reply scripts, reference-automaton oracle, reply-token attribution"),
+ "C12": ("fault_enumeration", "5/C12",
+   "Per message shape the destination fails at every byte offset of the output in four modes and every producer fails at three positions (S/MIME: also only in the first or second invocation), plus sampled combinations; return value, byte count and panics are checked on every render.",
+   "Trusted: the fault-injecting sink and producers. S/MIME-signed shapes sweep offsets with a stride (signing cost), stated in the evidence.",
+   "fault injection on the Writer/producer seams: exhaustive sink offsets per shape, producer failures"),
+ "C20": ("fault_enumeration", "5/C20",
+   "All 200 reply codes 400..599 x four text forms x five command positions x ENHANCEDSTATUSCODES on/off are enumerated in seeded batches, plus sampled multi-recipient rejections; every SendError field is compared with the replies the reference server actually sent for that message.",
+   "Trusted: reference server history as ground truth; rejected-recipient list parsed from SendError.Error() (no accessor exists).",
+   "deterministic simulation: enumerated reply codes/forms/positions, server-history oracle"),
  "C17": ("fault_enumeration", "5/C17",
    "Every position at which the peer can go silent (each server message of dial and send at three granularities, byte offsets inside the TLS handshake, peer stops reading) is enumerated for DialWithContext, DialAndSend, Send and Reset across TLS modes and auth classes; the simulated clock decides exactly whether the call returned within the timeout, and kernel quiescence decides 'blocks for ever' without any wall-clock guess.",
    "Trusted: the simulation kernel and transport (sim/), the reference server, Go's testing/synctest virtual clock. Bound per DESIGN.md section 5/C17 (one timeout + 1 ms; two for a mid-line stall; +5 s TLS close_notify when the peer stopped reading).",
